@@ -50,13 +50,16 @@ def gen_epochs(ctx: Ctx):
             days.add((datetime(y, m, d) - DT2000).days)
         if y % 4 == 0 and (y % 100 != 0 or y % 400 == 0):
             days.add((datetime(y, 2, 29) - DT2000).days)
+    for (y, m, d) in ((2008, 6, 30), (2008, 12, 31), (2015, 6, 30), (2015, 12, 31), (2016, 7, 1), (2016, 12, 31), (2012, 6, 30), (2000, 12, 31)):
+        days.add((datetime(y, m, d) - DT2000).days)
     g0 = (datetime(1980, 1, 6) - DT2000).days
     for k in (0, 1, 2, 3):
         for dd in (-1, 0, 1, 6, 7):
             days.add(g0 + 7 * 1024 * k + dd)
-    days = [d for d in days if lo <= d < hi]
+    must = [(datetime(y, m, d) - DT2000).days for (y, m, d) in ((2008, 12, 31), (2015, 6, 30), (2015, 12, 31), (2016, 12, 31), (2000, 12, 31))]
+    days = [d for d in days if lo <= d < hi and d not in must]
     rng.shuffle(days)
-    days = days[: ctx.budget(40, 400)]
+    days = must + days[: ctx.budget(40, 400)]
     for _ in range(ctx.budget(60, 3000)):
         days.append(rng.randint(lo, hi - 1))
     uss = [0, 1, 43200 * 10**6, DAY_US - 1, DAY_US - 10, 43200 * 10**6 - 1, 500000, 999999, 1000000, 86399 * 10**6]
@@ -146,6 +149,7 @@ def run(ctx: Ctx):
             one_format(ctx, Time, drv, scale, fmt, t0, j1, j2, epochs)
         ctx.traces += n * len(ALL)
     two_part_and_shapes(ctx, Time, drv, epochs)
+    scalar_readout(ctx, Time, epochs)
 
 
 def check_intfrac(ctx, drv, t, case, epochs):
@@ -316,6 +320,62 @@ def one_format(ctx, Time, drv, scale, fmt, t0, j1, j2, epochs):
                             {"scale": scale, "fmt": fmt, "value": str(x)})
             if name == "scalar" and np.ndim(t.jd1) != 0:
                 ctx.violate(f"scalar-shape:{fmt}", "scalar in, array out", {"scale": scale, "fmt": fmt})
+
+
+def scalar_readout(ctx, Time, epochs):
+    """reading a format from a scalar, a length-1 and a length-n Time gives the same value element by element"""
+    rng = ctx.rng
+    must = [e for e in epochs[:10]]
+    sel = must + rng.sample(epochs, min(len(epochs), ctx.budget(25, 400)))
+    for scale in SCALES:
+        v1 = np.array([float(F(4903089, 2) + d) for d, _ in sel])
+        v2 = np.array([float(F(us, DAY_US)) for _, us in sel])
+        tn = Time(v1, val2=v2, fmt="jd", scale=scale)
+        for fmt in ALL:
+            try:
+                vn = getattr(tn, fmt)
+            except ValueError:
+                continue
+            except Exception as e:
+                ctx.violate(f"read-raises:{fmt}", f"{type(e).__name__}: {e}", {"scale": scale, "fmt": fmt})
+                continue
+            for i in range(len(sel)):
+                case = {"scale": scale, "fmt": fmt, "jd1": float(v1[i]), "jd2": float(v2[i])}
+                ctx.count("scalar-readout")
+                try:
+                    ts = Time(float(v1[i]), val2=float(v2[i]), fmt="jd", scale=scale)
+                    t1 = Time(np.array([v1[i]]), val2=np.array([v2[i]]), fmt="jd", scale=scale)
+                    vs, vl = getattr(ts, fmt), getattr(t1, fmt)
+                except Exception as e:
+                    ctx.violate(f"scalar-read-raises:{fmt}", f"{type(e).__name__}: {e}", case)
+                    continue
+                a = scalar_value(fmt, vn, i)
+                b = tuple(vs) if fmt == "gps_ws" else vs
+                c = scalar_value(fmt, vl, 0)
+                same = (lambda x, y: all(float(p) == float(q) for p, q in zip(x, y))) if fmt == "gps_ws" else (lambda x, y: x == y)
+                if not same(a, b) or not same(a, c):
+                    ctx.violate(f"scalar-vs-array-readout:{fmt}", f".{fmt} of a scalar / length-1 / length-n {scale} time differ: {b!r} / {c!r} / {a!r}", case)
+    # a gps_ws Time rebuilt from its own (n, 3) values, n = 1..6
+    for n in range(1, 7):
+        d0 = (datetime(1999, 8, 15) - DT2000).days
+        v1 = np.array([float(F(4903089, 2) + d0 + 7 * 512 * k) for k in range(n)])
+        v2 = np.array([0.25 + 0.1 * k for k in range(n)])
+        case = {"fmt": "gps_ws", "n": n}
+        ctx.count("gps_ws-from-ndarray")
+        try:
+            t = Time(v1, val2=v2, fmt="jd", scale="gps")
+            g = Time(np.asarray(t.gps_ws.week), val2=np.asarray(t.gps_ws.seconds), fmt="gps_ws", scale="gps")
+            h = Time(np.asarray(g).copy(), fmt="gps_ws", scale="gps")
+            import copy as _copy
+            c = _copy.deepcopy(g)
+        except Exception as e:
+            ctx.violate("gps_ws-from-ndarray-raises", f"{type(e).__name__}: {e}", case)
+            continue
+        for name, x in (("Time(ndarray of the values)", h), ("deepcopy", c)):
+            want = [frac(p) + frac(q) for p, q in zip(np.asarray(g.jd1), np.asarray(g.jd2))]
+            got = [frac(p) + frac(q) for p, q in zip(np.atleast_1d(np.asarray(x.jd1)), np.atleast_1d(np.asarray(x.jd2)))]
+            if len(got) != n or any(abs(p - q) > NS for p, q in zip(got, want)) or not np.array_equal(np.asarray(x), np.asarray(g)):
+                ctx.violate("gps_ws-from-ndarray", f"{name} of a {n}-epoch gps_ws time denotes other epochs / values", case)
 
 
 def two_part_and_shapes(ctx, Time, drv, epochs):
